@@ -859,16 +859,17 @@ def _tabstops_whole_pop(prog, why):
     n_eval = 0
     try:
         for col in range(1, 13):
-            for use_spaces in (False, True):
+            for use_spaces, use_escape in ((False, False), (True, False), (False, True), (True, True)):
                 sim = LexerSim(prog, "a" * (col - 1) + "\t" + "x")
                 if col > 1:
                     sim.call("pop", times=col - 1)
-                out = sim.call("pop", use_spaces=use_spaces)
+                out = sim.call("pop", use_spaces=use_spaces, use_escape=use_escape)
                 n_eval += 1
                 want = 4 - (col - 1) % 4
                 ok = out.kind == "ok" and sim.line_pos == col + want and out.value == (" " * want if use_spaces else "\t")
                 if not ok and bad is None:
-                    bad = (col, sim.line_pos, want, out.value if out.kind == "ok" else repr(out))
+                    bad = (col, sim.line_pos, want, out.value if out.kind == "ok" else repr(out),
+                           " read with use_escape (inside a string / character literal)" if use_escape else "")
     except _LU as e:
         raise Undecided(f"Lexer.pop is outside the evaluable subset: {e}")
     return bad, n_eval
@@ -884,14 +885,15 @@ def rule_tabstops(run, prog):
     for n in walk_fn(pop.node):
         if isinstance(n, ast.If) and _is_tab_test(pop, n.test):
             tab_if = n
-    run.require(tab_if is not None, "anchor vanished: the tab branch of Lexer.pop")
-    blk = parent(tab_if)
-    body = blk.body
-    idx = [i for i, s in enumerate(body) if s is tab_if][0]
-    stmts = body[idx:]
     bad = None
     n_eval = 0
     try:
+        if tab_if is None:
+            raise Unsupported("no statement of pop() is recognisably the tab branch")
+        blk = parent(tab_if)
+        body = blk.body
+        idx = [i for i, s in enumerate(body) if s is tab_if][0]
+        stmts = body[idx:]
         for col in range(1, 13):
             for use_spaces in (False, True):
                 me = Obj("Lexer")
@@ -922,9 +924,18 @@ def rule_tabstops(run, prog):
         # the branch cannot be evaluated in isolation (e.g. it moved into a helper that was inlined back under other
         # local names): interpret the whole pop() on a tab standing at columns 1..12 instead
         bad, n_eval = _tabstops_whole_pop(prog, e)
+    else:
+        # the branch holds in isolation; whether pop() reaches it in each of its reading modes (plain, use_spaces, use_escape:
+        # a raw tab inside a literal or a comment is laid out like any other) is decided on the whole function
+        if bad is None:
+            try:
+                bad, n2 = _tabstops_whole_pop(prog, "")
+                n_eval += n2
+            except Undecided:
+                pass
     run.ob("R-3.3", f"{pop.key}::tab-stop", bad is None,
-           (f"a tab at column {bad[0]} moves to column {bad[1]} (expected {bad[0] + bad[2]}: tab stops every 4 columns) / "
-            f"expands to {bad[3]!r}") if bad else "ok", tab_if, evaluations=n_eval)
+           (f"a tab at column {bad[0]}{bad[4] if len(bad) > 4 else ''} moves to column {bad[1]} (expected {bad[0] + bad[2]}: tab stops "
+            f"every 4 columns) / expands to {bad[3]!r}") if bad else "ok", tab_if or pop.node, evaluations=n_eval)
 
 
 FULL_RANGE_BOUNDS = ("len(context.tokens)", "context.tkn_scope", "context.arg_pos[1]", "len(context.tokens[:context.tkn_scope])")
